@@ -109,6 +109,7 @@ func solvePhase(obls []*Obligation, dir string, timeout int, withAxioms bool) fl
 			if o.relaxed {
 				memo := map[*Term]*Term{}
 				h, g = relaxNL(h, memo), relaxNL(g, memo)
+				h = And(h, nlFacts(h, g))
 			}
 			asserts = []*Term{h, Not(g)}
 			if withAxioms {
@@ -164,8 +165,8 @@ func solvePhase(obls []*Obligation, dir string, timeout int, withAxioms bool) fl
 			sem <- struct{}{}
 			defer func() { <-sem }()
 			to := timeout
-			if j.o.Cover && to > 4 {
-				to = 4 // vacuity guards get a short budget
+			if j.o.Cover && to > 3 {
+				to = 3 // vacuity guards get a short budget
 			}
 			r := Solve(dir, j.fname, j.script, to, nil)
 			j.o.Result = r
